@@ -12,7 +12,7 @@ Clauses(o) ==
         got == o.ret
     IN
     IF ~got.ok /\ ~got.sigma THEN <<C("NonSigmaException")>>
-    ELSE IF want.status = "unspec" THEN <<>>
+    ELSE IF want.status = "unspec" THEN <<D("__unspec")>>
     ELSE IF want.status = "reject" THEN (IF got.ok THEN <<C("InadmissibleRejected")>> ELSE <<>>)
     ELSE IF ~got.ok THEN <<C("AdmissibleChainRejected")>>
     ELSE IF got.out.linking # want.linking THEN <<C("AllSetsAnd")>>
@@ -25,7 +25,7 @@ Verdict(o) ==
         viol == SelectSeq(cs, LAMBDA c : ~c.dev)
     IN  [id |-> o.id,
          v |-> IF viol # <<>> THEN "violation:" \o viol[1].name
-               ELSE IF cs # <<>> THEN "dev:" \o cs[1].name ELSE "ok",
+               ELSE IF cs # <<>> THEN (IF cs[1].name = "__unspec" THEN "unspec" ELSE "dev:" \o cs[1].name) ELSE "ok",
          st |-> Apply(o.vals, o.chain, o.field).status]
 ASSUME ndJsonSerialize(IOEnv.VERIF_OUT, [i \in 1..Len(Obs) |-> Verdict(Obs[i])])
 Init == x = 0
